@@ -268,3 +268,105 @@ Proof.
   intros x [<-|[]]; exact Hf.
 Qed.
 Print Assumptions C17_bridge_sample_row_trace.
+
+(* ================================================================== *)
+(** * 3. VineCopula.sample                                             *)
+Definition frame_obj {A} (p : list A * list (list (option sterm))) : list A * list (list (option pcell)) :=
+  (fst p, map row_obj (snd p)).
+
+Lemma sample_rows_loop (T0 : list edge) (ts : list (list edge)) (trunc : nat) (firsts : nat -> nat) :
+  let trees := T0 :: ts in
+  let n := S (length T0) in
+  adj_ok T0 -> (forall r, firsts r < n) ->
+  (forall i T, nth_error trees i = Some T -> idx_ok T) ->
+  forall (l : list nat) (acc : list (list (option pcell))),
+  py_fold_opt (fun (i : nat) (rows : list (list (option pcell))) =>
+                 match gen_VineCopula__sample_row (S (n * n)) trees trunc n (firsts i) with
+                 | Some row => Some (py_list_append rows row)
+                 | None => None
+                 end) l acc
+  = option_map (fun rows => acc ++ map row_obj rows) (map_opt (fun r => sample_row trees trunc (firsts r)) l).
+Proof.
+  intros trees n Hok Hf Hidx l. subst trees n. induction l as [|r l IH]; intros acc.
+  - cbn [py_fold_opt map_opt option_map map]. rewrite app_nil_r. reflexivity.
+  - cbn [py_fold_opt map_opt]. rewrite (C17_bridge_sample_row T0 ts trunc (firsts r) Hok (Hf r) Hidx).
+    destruct (sample_row (T0 :: ts) trunc (firsts r)) as [row|]; cbn [option_map]; [|reflexivity].
+    rewrite IH. unfold py_list_append.
+    destruct (map_opt (fun r0 => sample_row (T0 :: ts) trunc (firsts r0)) l) as [rows|]; cbn [option_map map]; [|reflexivity].
+    rewrite <- app_assoc. reflexivity.
+Qed.
+
+(* VineCopula.sample on a fitted vine: the rows of the model in order under the training columns, the draws coming from the
+   model's own stream iff it has one (@random_state) *)
+Theorem C17_bridge_sample :
+  forall (A : Type) (has_rs : bool) (columns : list A) (T0 : list edge) (ts : list (list edge)) (trunc num_rows : nat)
+         (firsts : rsrc -> nat -> nat),
+  let trees := T0 :: ts in
+  let n := S (length T0) in
+  adj_ok T0 -> (forall s r, firsts s r < n) ->
+  (forall i T, nth_error trees i = Some T -> idx_ok T) ->
+  gen_VineCopula_sample (S (n * n)) has_rs true columns trees trunc n num_rows firsts
+  = option_map frame_obj (sample_rows columns trees trunc num_rows (firsts (if has_rs then RsOwn else RsGlobal))).
+Proof.
+  intros A has_rs columns T0 ts trunc num_rows firsts trees n Hok Hf Hidx. subst trees n.
+  unfold gen_VineCopula_sample, py_random_state, py_for_range, sample_rows, py_pd_DataFrame. cbn [negb]. cbv zeta.
+  set (src := if has_rs then RsOwn else RsGlobal).
+  rewrite (sample_rows_loop T0 ts trunc (firsts src) Hok (Hf src) Hidx).
+  destruct (map_opt (fun r => sample_row (T0 :: ts) trunc (firsts src r)) (seq 0 num_rows)) as [rows|]; reflexivity.
+Qed.
+Print Assumptions C17_bridge_sample.
+
+(* check_fit comes first: an unfitted vine raises before anything is drawn *)
+Theorem C17_bridge_sample_unfitted :
+  forall (A : Type) (fuel : nat) (has_rs : bool) (columns : list A) (trees : list (list edge)) (trunc n_var num_rows : nat)
+         (firsts : rsrc -> nat -> nat),
+  gen_VineCopula_sample fuel has_rs false columns trees trunc n_var num_rows firsts = None.
+Proof. intros. unfold gen_VineCopula_sample, py_random_state. destruct has_rs; reflexivity. Qed.
+
+Lemma nth_error_combine_seq {B} (l : list B) (k v : nat) (x : B) :
+  nth_error l v = Some x -> nth_error (combine (seq k (length l)) l) v = Some (k + v, x).
+Proof.
+  revert k v. induction l as [|y l IH]; intros k v H; [destruct v; discriminate|].
+  destruct v as [|v]; cbn [length seq combine nth_error] in *.
+  - injection H as ->. rewrite Nat.add_0_r. reflexivity.
+  - rewrite (IH (S k) v H). f_equal. f_equal. lia.
+Qed.
+
+(* "n rows, the training columns in order", about the generated function (Spec.VineSampleProofs.sample_shape transported):
+   on a vine whose first tree is a spanning tree, truncated >= 1, the result is a frame with the training columns as header,
+   num_rows rows of n cells, every cell v assigned ppfs[v] of some argument *)
+Theorem C17_gen_sample_shape :
+  forall (A : Type) (has_rs : bool) (columns : list A) (T0 : list edge) (ts : list (list edge)) (trunc num_rows : nat)
+         (firsts : rsrc -> nat -> nat),
+  let trees := T0 :: ts in
+  let n := S (length T0) in
+  is_tree n (graph1 T0) -> (forall e, In e T0 -> e_L e < e_R e) -> trunc >= 1 ->
+  (forall i, i < n - 1 -> i < trunc -> exists Ti, nth_error trees i = Some Ti) ->
+  (forall i T, nth_error trees i = Some T -> idx_ok T) ->
+  (forall s r, firsts s r < n) ->
+  exists rows,
+    gen_VineCopula_sample (S (n * n)) has_rs true columns trees trunc n num_rows firsts = Some (columns, rows) /\
+    length rows = num_rows /\
+    forall r row, nth_error rows r = Some row ->
+      length row = n /\ forall v, v < n -> exists s, nth_error row v = Some (Some (v, s)).
+Proof.
+  intros A has_rs columns T0 ts trunc num_rows firsts trees n Htree HLR Ht Hlev Hidx Hf.
+  assert (Hok : adj_ok T0).
+  { intros e He. destruct Htree as (Hn & _). apply (Hn (e_L e) (e_R e)). unfold graph1.
+    apply in_map_iff. exists e. split; [reflexivity|exact He]. }
+  pose proof (C17_bridge_sample A has_rs columns T0 ts trunc num_rows firsts Hok Hf Hidx) as Hb.
+  cbv zeta in Hb. fold trees n in Hb. rewrite Hb. clear Hb.
+  set (fs := firsts (if has_rs then RsOwn else RsGlobal)).
+  destruct (sample_shape columns trees trunc num_rows fs) as (rows & Hs & Hl & Hr); auto.
+  { intros i Hi Hit. destruct (Hlev i Hi Hit) as [Ti HTi]. exists Ti. split; [exact HTi|]. exact (Hidx i Ti HTi). }
+  { intros r. apply Hf. }
+  exists (map row_obj rows). rewrite Hs. split; [reflexivity|]. split; [rewrite map_length; exact Hl|].
+  intros r row Hrow. rewrite nth_error_map in Hrow.
+  destruct (nth_error rows r) as [row0|] eqn:E; [|discriminate]. injection Hrow as <-.
+  destruct (Hr r row0 E) as [Hlen Hcells]. fold n in Hlen, Hcells.
+  unfold row_obj. split; [rewrite map_length, combine_length, seq_length, Hlen; apply Nat.min_id|].
+  intros v Hv. destruct (Hcells v Hv) as [s Hs']. exists s.
+  rewrite nth_error_map.
+  rewrite (nth_error_combine_seq row0 0 v (Some s) Hs'). reflexivity.
+Qed.
+Print Assumptions C17_gen_sample_shape.
